@@ -116,6 +116,8 @@ def gen_case(rng, *, full_model=True, penalties=True, weights=True, two_groups=T
         rel_sources.add(s)
     if not has_global and rng.random() < 0.35:
         cands = [l for l in all_labels if l not in rel_targets]      # D7
+        if rel_sources and rng.random() < 0.5:
+            cands = [l for l in cands if l in rel_sources] or cands   # interacting items: the constraint removes the source of the relation
         if cands:
             ivs = [] if rng.random() < 0.2 else [_iv(rng, grid) for _ in range(rng.choice([1, 1, 2]))]
             typ = rng.choice(["zero", "only"]) if ivs else "zero"
